@@ -209,6 +209,9 @@ def run(ctx):
     from .c06 import check_counter
 
     report.share(ctx, "C17.P3", check_counter)  # two senders never use the same system bytes (the peer assembles blocks by them)
+    from .c08 import check_stale_registrations
+
+    report.share(ctx, "C17.P3", check_stale_registrations)  # a late reply is delivered, not swallowed by the queue of a request that gave up
     check_bytequeue_wait(ctx, "C17.W1")
     from .c04 import check_byte_queue
 
